@@ -28,6 +28,9 @@ def IsSetter : Op → Prop
   | .setPosFmt _ _ => True
   | .writeLine _ => False
   | .close => False
+  | .setBoxBadShape => False      -- raises `ValueError`
+  | .writeStr _ => False
+  | .writeTup _ => False
 
 theorem pristine_init : Pristine WState.init := ⟨rfl, rfl, rfl, rfl, rfl, rfl, rfl⟩
 
@@ -40,6 +43,9 @@ theorem pristine_step {s : WState} {op : Op} (hs : Pristine s) (hop : IsSetter o
   | setPosFmt w d => exact ⟨⟨hs.1, hs.2, hs.3, hs.4, hs.5, hs.6, hs.7⟩, rfl⟩
   | writeLine r => exact absurd hop (by simp [IsSetter])
   | close => exact absurd hop (by simp [IsSetter])
+  | setBoxBadShape => exact absurd hop (by simp [IsSetter])
+  | writeStr l => exact absurd hop (by simp [IsSetter])
+  | writeTup n => exact absurd hop (by simp [IsSetter])
 
 theorem pristine_run {s : WState} (ops : List Op) (hs : Pristine s) (hops : ∀ op ∈ ops, IsSetter op) :
     Pristine (run s ops).1 ∧ ∀ e ∈ (run s ops).2, e = none := by
